@@ -78,27 +78,20 @@ theorem writeAll_flush_run (cs : List Bytes) (env : Env) (buf : Bytes) :
     simp only [writeAllM, bind, M.bind, pure, M.pure, Prog.bind, flushM]
     cases buf <;> simp [Prog.runPure]
   | cons c cs ih =>
-    simp only [writeAllM, bind, M.bind, writeM, Bool.false_eq_true, if_false]
-    cases buf with
-    | nil =>
-      simp only [List.isEmpty_nil, if_true, Prog.bind]
-      have := ih c
-      simp only [bind, M.bind] at this
-      simpa using this
-    | cons b bs =>
-      simp only [List.isEmpty_cons, Bool.false_eq_true, if_false, Prog.bind, Prog.runPure]
-      have := ih c
-      simp only [bind, M.bind] at this
-      rw [this]
-      simp
+    have h2 := ih []
+    simp only [writeAllM, bind, M.bind, Prog.bind_assoc] at h2 ⊢
+    rw [Prog.runPure_bind, writeVerbatim_runPure]
+    simp only
+    rw [h2]
+    simp
 
-/-- a root that is one node made of plain writes -/
-theorem frender_writes_run (P : Prims) (O : OutPrims) (cfg : Cfg) (fs : FS) (fuel : Nat) (n : Node) (loc : Loc)
-    (cs : List Bytes) (env : Env)
-    (hn : renderNode (mkCtx P O cfg fs fuel) n = wrapFailAt cfg.path loc (do writeAllM cs; pure Status.done)) :
-    (frender P O cfg fs fuel [n] env).runPure = (cs.flatten, .ok ()) := by
+/-- a root that is one node made of writer operations `m`: the node, then the final flush -/
+theorem frender_prog_run (P : Prims) (O : OutPrims) (cfg : Cfg) (fs : FS) (fuel : Nat) (n : Node) (loc : Loc)
+    (m : M Unit) (out : Bytes) (s' : RS) (env : Env)
+    (hn : renderNode (mkCtx P O cfg fs fuel) n = wrapFailAt cfg.path loc (do m; pure Status.done))
+    (h : ((m >>= fun _ => flushM) { env := env, tw := { buf := [], trim := false } }).runPure = (out, .ok ((), s'))) :
+    (frender P O cfg fs fuel [n] env).runPure = (out, .ok ()) := by
   rw [frender_single, hn]
-  have h := writeAll_flush_run cs env []
   simp only [bind, M.bind, List.nil_append] at h
   rw [Prog.runPure_bind] at h
   unfold wrapFailAt M.mapFail
@@ -106,7 +99,7 @@ theorem frender_writes_run (P : Prims) (O : OutPrims) (cfg : Cfg) (fs : FS) (fue
   rw [Prog.runPure_bind, Prog.runPure_mapFail, Prog.runPure_bind]
   have hdef : ({} : TW) = { buf := [], trim := false } := rfl
   rw [hdef]
-  rcases hw : (writeAllM cs { env := env, tw := { buf := [], trim := false } }).runPure with ⟨o1, r1⟩
+  rcases hw : (m { env := env, tw := { buf := [], trim := false } }).runPure with ⟨o1, r1⟩
   rw [hw] at h
   cases r1 with
   | ok a =>
@@ -128,15 +121,19 @@ theorem frender_writes_run (P : Prims) (O : OutPrims) (cfg : Cfg) (fs : FS) (fue
   | panic w => simp at h
   | unmodelled w => simp at h
 
+/-- a root that is one node made of verbatim writes -/
+theorem frender_writes_run (P : Prims) (O : OutPrims) (cfg : Cfg) (fs : FS) (fuel : Nat) (n : Node) (loc : Loc)
+    (cs : List Bytes) (env : Env)
+    (hn : renderNode (mkCtx P O cfg fs fuel) n = wrapFailAt cfg.path loc (do writeAllM cs; pure Status.done)) :
+    (frender P O cfg fs fuel [n] env).runPure = (cs.flatten, .ok ()) := by
+  have := frender_prog_run P O cfg fs fuel n loc (writeAllM cs) _ _ env hn (writeAll_flush_run cs env [])
+  simpa using this
+
 theorem frender_text_run (P : Prims) (O : OutPrims) (cfg : Cfg) (fs : FS) (fuel line : Nat) (src : Bytes) (env : Env) :
     (frender P O cfg fs fuel [.text line src] env).runPure = (src, .ok ()) := by
-  have hprog : (do writeM src; pure Status.done : M Status) = (do writeAllM [src]; pure Status.done) := by
-    funext s
-    simp only [writeAllM, bind, M.bind, pure, M.pure, Prog.bind_assoc, Prog.bind]
-  have := frender_writes_run P O cfg fs fuel (.text line src) ⟨line, true⟩ [src] env (by
-    simp only [renderNode, mkCtx]
-    rw [hprog])
-  simpa using this
+  refine frender_prog_run P O cfg fs fuel (.text line src) ⟨line, true⟩ (writeM src) src
+    { env := env, tw := { buf := [], trim := false } } env (by simp only [renderNode, mkCtx]) ?_
+  cases src <;> simp [bind, M.bind, Prog.bind, writeM, flushM, Prog.runPure]
 
 theorem frender_raw_run (P : Prims) (O : OutPrims) (cfg : Cfg) (fs : FS) (fuel : Nat) (slices : List Bytes) (env : Env) :
     (frender P O cfg fs fuel [.raw slices] env).runPure = (slices.flatten, .ok ()) :=
